@@ -106,3 +106,34 @@ Theorem C07_longest_side_becomes_max_size : forall v m ip H W D vi,
   (H = M -> h' = m) /\ (W = M -> w' = m) /\ (D = M -> d' = m).
 Proof. exact longest_side_becomes_max_size. Qed.
 Print Assumptions C07_longest_side_becomes_max_size.
+
+(* RandomSizedCrop, the sized box-safe crop and keep_size: exactly the promised shape, and with nearest
+   interpolation (the mask path) no voxel that was not in the input (no fill voxels) *)
+From DV.proofs Require Import Values SizedCrop CropPad.
+From DV.gen Require Import Gen_cls_crops_dicom.
+Theorem C07_sized_crops_return_the_promised_shape :
+  (forall v H W D ch cw cd hs ws sh sw sd ip c r s,
+     vshape v = (H, W, D) -> (0 < ch <= H)%Z -> (0 < cw <= W)%Z -> (0 < cd <= D)%Z -> 0 <= hs < 1 -> 0 <= ws < 1 ->
+     exists v', RandomSizedCrop_apply sd sh sw v hs ws ch cw cd ip c r s = Ok v' /\ vshape v' = (sh, sw, sd) /\
+       (ip = 0%Z -> forall P, fills_in P v -> fills_in P v')) /\
+  (forall v H W D ch cw cd hs ws ds sh sw sd ip c r s,
+     vshape v = (H, W, D) -> (0 < ch <= H)%Z -> (0 < cw <= W)%Z -> (0 < cd <= D)%Z -> 0 <= hs < 1 -> 0 <= ws < 1 -> 0 <= ds < 1 ->
+     exists v', RandomSizedBBoxSafeCrop_apply sd sh sw v hs ws ds ch cw cd ip c r s = Ok v' /\ vshape v' = (sh, sw, sd) /\
+       (ip = 0%Z -> forall P, fills_in P v -> fills_in P v')).
+Proof. split; [exact RandomSizedCrop_image | exact RandomSizedBBoxSafeCrop_image]. Qed.
+Print Assumptions C07_sized_crops_return_the_promised_shape.
+
+Theorem C07_keep_size_returns_the_input_shape : forall pm v cp pp pv pvm rr rc rs ip c r s v',
+  CropAndPad_apply true pm v cp pp pv pvm rr rc rs ip c r s = Ok v' -> vshape v' = (r, c, s).
+Proof.
+  intros pm v cp pp pv pvm rr rc rs ip c r s v' A. unfold CropAndPad_apply in A.
+  rewrite (crop_and_pad_shape _ _ _ _ _ _ _ _ _ _ _ A). reflexivity.
+Qed.
+Print Assumptions C07_keep_size_returns_the_input_shape.
+
+Theorem C07_RandomSizedCrop_sampler_meets_the_hypotheses : forall d2h lo hi w2h d1 d2 d3 hs ws ch cw cd,
+  RandomSizedCropS_get_params d2h (lo, hi) w2h d1 d2 d3 = Ok (hs, ws, ch, cw, cd) ->
+  (lo <= ch <= hi)%Z /\ 0 <= hs < 1 /\ 0 <= ws < 1 /\
+  cw = py_int (inject_Z ch * w2h) /\ cd = py_int (inject_Z ch * d2h).
+Proof. exact RandomSizedCrop_params. Qed.
+Print Assumptions C07_RandomSizedCrop_sampler_meets_the_hypotheses.
